@@ -52,6 +52,7 @@ def handle (line : String) : String :=
         if !(args.all inv) then "NOT-INV:operand" else
         -- the hypothesis of the Mul theorems must hold on every operand of the numeric-exponent fragment
         if args.all mulFragSyntactic && !(args.all mulOperandOK) then "NOT-OK:mul-operand" else
+        if args.all mulFragSyntacticS && !(args.all mulOperandOKS) then "NOT-OK:mul-operand-sym" else
         let sh := showRes Expr.dumpCanon
         let first := sh (foldlM1 (mulEO false) args)
         let first' := sh (foldlM1 (mulEO true) args)
